@@ -13,7 +13,7 @@
 EXTENDS Container
 
 \* ---- items ---------------------------------------------------------------------------------
-ReservedBad == {"retctx", "retprov", "asctx", "multiscope", "outprov"}
+ReservedBad == {"retctx", "retprov", "asctx", "multiscope", "outprov", "outctxgroup", "multiscopegroup", "asctxgroup"}
 InvalidBad  == {"nameandgroup", "backquote", "asstruct", "nilctor", "nilfunc", "outnamegroup"}
 
 Desc(item, o) == LET x == OutsOf(item)[o] IN
